@@ -95,12 +95,12 @@ C03_EstablishedSoundness(cfg, obs) ==
     IN /\ a > 0 /\ c > 0 /\ q > 0 /\ r > 0
        /\ q < c /\ c < a /\ a < r
        /\ KnownRole(obs[a].res)
-       /\ obs[a].scheme = obs[c].scheme
+       /\ (obs[c].cred # "" => obs[a].scheme = obs[c].scheme)
        /\ obs[a].ident = obs[c].ident
        /\ obs[a].cred = obs[c].cred
        /\ obs[c].id = "right"
-       /\ obs[a].scheme \in SchSet(obs[q].sopts)
-       /\ obs[a].scheme \in cfg.schemes
+       /\ obs[c].scheme \in SchSet(obs[q].sopts)
+       /\ obs[c].scheme \in cfg.schemes
        /\ obs[r].res = "ok"
        /\ obs[r].ident = obs[c].ident
        /\ \A i \in 1 .. (n - 1) : ~(IsOutSes(obs[i]) /\ obs[i].st = "failed")
